@@ -16,8 +16,10 @@ func selectSexp(q *influxql.SelectStatement) string {
 }
 
 var c20Exprs = []string{"a", "b", "a_1", "a_2", "b_1", "a_1_1", "mean(a)", "mean(b)", "max(a)", "mean", "top(a, 2)", "top(a, b, 2)", "top(a, b, a, 3)", "bottom(a, a_1, 1)", "top(a, 2, b)",
-	"a + b", "a + a", "mean(a) + b", "(a)", "((a_1))", "(a + b)", "1", "'s'", "1 + 2", "a + 1", "count(*)", "*", "/re/", "top()", "bottom()", "f(a) + g(b)", "DISTINCT a", "time", "a::integer", "\"a\"", "\"a_1\""}
-var c20Aliases = []string{"", "", "", "a", "b", "a_1", "a_2", "b_1", "mean", "time", "x", "top", "a_b", "mean_1", "_1", "a_1_1"}
+	"a + b", "a + a", "mean(a) + b", "(a)", "((a_1))", "(a + b)", "1", "'s'", "1 + 2", "a + 1", "count(*)", "*", "/re/", "top()", "bottom()", "f(a) + g(b)", "DISTINCT a", "time", "a::integer", "\"a\"", "\"a_1\"",
+	// names that are not plain words: format directives, blanks, quotes, non-ASCII
+	"\"usage%\"", "\"a%%\"", "\"%d\"", "\"%s_%d\"", "\"a b\"", "\"a\\\"b\"", "\"é\"", "mean(\"usage%\")", "\"usage%\" + 1", "top(\"100%\", \"%v\", 2)"}
+var c20Aliases = []string{"", "", "", "a", "b", "a_1", "a_2", "b_1", "mean", "time", "x", "top", "a_b", "mean_1", "_1", "a_1_1", "usage%", "%d", "a%%_1"}
 
 func c20Names(q *influxql.SelectStatement) (names []string, pn interface{}) {
 	defer func() { pn = recover() }()
@@ -131,7 +133,7 @@ func propC20(o *out, r *rng, thorough bool) {
 		return t + " FROM m"
 	}
 	// exhaustive: all field lists of length <= 2 (thorough: 3) over a dense sub-pool, without aliases and with one alias
-	pool := []int{0, 2, 3, 6, 9, 10, 11, 15, 21}
+	pool := []int{0, 2, 3, 6, 9, 10, 11, 15, 21, 36, 37}
 	maxLen := 2
 	if thorough {
 		maxLen = 3
